@@ -97,15 +97,16 @@ ProcessAlive == alive
 CountersSane == connected >= Cardinality(Sentinels) /\ inflight >= 0
 
 (* ---- mutation plans for the harness: which frame of which session is damaged how ---------------------------- *)
-Sessions == {"ctl", "adm", "scan", "lurker", "prelogin", "upload", "download", "fupload", "fdownload"}   \* (+ two "nonreader" connections added by the driver: logged in, asking a lot, never reading)
+Sessions == {"ctl", "adm", "scan", "lurker", "kick", "prelogin", "upload", "download", "fupload", "fdownload"}   \* (+ two "nonreader" connections added by the driver: logged in, asking a lot, never reading)
 Mutations == {"trunc", "total", "datasz", "count", "flen", "dropfield", "shortid", "garbage", "badhs", "size", "dup"}
 Applicable(s, m) ==
-  CASE s = "lurker"   -> m = "shortid"   \* stays connected with odd user info (icon / name / options of unusual lengths, by val)
+  CASE s = "kick"     -> m = "dup"       \* the hostile operator disconnects / bans another hostile user (val: ban option)
+    [] s = "lurker"   -> m = "shortid"   \* stays connected with odd user info (icon / name / options of unusual lengths, by val)
     [] s = "scan"     -> m = "garbage"   \* a scan of the transfer port with unknown reference numbers, next to busy downloaders
     [] s = "prelogin" -> m \in {"trunc", "total", "datasz", "count", "flen", "garbage", "badhs", "dropfield"}
     [] s \in {"ctl", "adm"} -> m \in Mutations \ {"badhs", "size", "dup"}   \* adm: the same session as an operator (all but account administration), its kick aimed at an absent user; sentinels cannot be disconnected
     [] OTHER          -> m \in {"trunc", "size", "count", "garbage", "badhs", "dup"}   \* dup: the preamble replayed on two connections
-Frames(s) == IF s \in {"scan", "lurker"} THEN 0..0 ELSE IF s \in {"ctl", "adm"} THEN 3..24 ELSE IF s = "prelogin" THEN 1..2 ELSE 0..9
+Frames(s) == IF s \in {"scan", "lurker", "kick"} THEN 0..0 ELSE IF s \in {"ctl", "adm"} THEN 3..24 ELSE IF s = "prelogin" THEN 1..2 ELSE 0..9
 Plans == {p \in [sess : Sessions, frame : 0..24, mut : Mutations, val : 0..6] :
             p.frame \in Frames(p.sess) /\ Applicable(p.sess, p.mut)}
 =============================================================================
